@@ -95,6 +95,39 @@ theorem tickSync_derived (env : Env) (cfg : Cfg) (n : Node) (ts : Int) (perm : L
                 exact addBlock_derived env _ _ _ _ _ hd' ha
   · exact hd
 
+/-- a round that left a tip dated at or after the tick's own timestamp (it adopted the block of that very slot):
+    `AddBlock` refuses, nothing is appended, the node holds the round's outcome and its pool as it was -/
+theorem tickSync_stale_refused (env : Env) (cfg : Cfg) (n : Node) (ts : Int) (perm : List Tx) (rid : String)
+    (now : Int) (resps : List Resp) (pick : Nat) (l' : Ledger)
+    (hperm : perm.isPerm n.pool = true)
+    (hpick : (Sync.outcomes env cfg n.led now resps)[pick]? = some l')
+    (hne : l'.blocks ≠ []) (hstale : ts ≤ l'.lastTs) :
+    stepTickSync env cfg n ts perm rid now resps pick = { n with led := l' } := by
+  unfold stepTickSync
+  rw [if_pos hperm, hpick]
+  simp only []
+  have hnone : Node.produceOn env cfg n.led l' ts perm rid = none := by
+    unfold Node.produceOn
+    simp only []
+    split
+    · rfl
+    · split
+      · rfl
+      · cases n.led.utxos.update n.led.lastTxs (n.led.lastTs + cfg.interval) with
+        | error e => rfl
+        | ok copy =>
+          simp only []
+          have hab : ∀ txs na, l'.addBlock env ts txs na = .error "not-after-tip" := by
+            intro txs na
+            unfold Ledger.addBlock
+            have : (!l'.blocks.isEmpty && decide (ts ≤ l'.lastTs)) = true := by
+              cases hb : l'.blocks with
+              | nil => exact absurd hb hne
+              | cons _ _ => simp [hstale]
+            rw [if_pos this]
+          rw [hab]
+  rw [hnone]
+
 namespace C16ex
 
 /-- a second transaction spending the genesis reward (the output `C05ex.tx` spends) -/
